@@ -357,7 +357,7 @@ pub fn encode_avp(t: &TAvp) -> Option<Vec<u8>> {
     let full = guard(|| {
         let mut w = VecWriter::new();
         a.write(&mut w);
-        w.data
+        std::mem::take(&mut w.data)
     })?;
     if full.len() < 6 || full.len() > 1023 {
         return None;
@@ -379,7 +379,7 @@ pub fn assemble(flags: u16, tid: u16, sid: u16, ns: u16, nr: u16, recs: &[Vec<u8
     w.write_u16_be(ns);
     w.write_u16_be(nr);
     w.write_bytes(&body);
-    w.data
+    std::mem::take(&mut w.data)
 }
 
 pub fn record(flags_bits: u8, vendor: u16, attr: u16, payload: &[u8]) -> Vec<u8> {
@@ -680,6 +680,26 @@ fn good_record(r: &Rng) -> Vec<u8> {
 
 fn mt_record(r: &Rng) -> Vec<u8> {
     encode_avp(&gen_avp_kind(r, "MessageType", false)).unwrap()
+}
+
+/// control messages with a large AVP area, each followed (by the caller) by ordinary traffic: a scratch buffer, a
+/// table or a counter that was sized for "typical" messages, or that is not reset after a large one, shows on the
+/// message *after* the large one
+pub fn big_controls(r: &Rng) -> Vec<TMsg> {
+    let mut v = vec![];
+    for body in [4000usize, 4096, 4097, 4200, 5000, 8191, 8193, 12000, 16385, 33000, 60000, 65000] {
+        let mut avps = vec![TAvp::new("MessageType", vec!["Hello".into()])];
+        let mut size = 8usize;
+        while size + 7 <= body {
+            let room = body - size - 6;
+            let l = room.min(1 + r.below(1017)).max(1);
+            let kind = if avps.len() % 2 == 0 { "Challenge" } else { "HostName" };
+            avps.push(TAvp::new(kind, vec![hex(&r.bytes(l))]));
+            size += 6 + l;
+        }
+        v.push(TMsg::Control { len: (12 + size) as u16, tid: r.u16x(), sid: r.u16x(), ns: r.u16x(), nr: r.u16x(), avps });
+    }
+    v
 }
 
 // ---------------------------------------------------------------- per-property streams
@@ -1066,6 +1086,11 @@ fn c03_stream(r: &Rng, out: &mut Out, n: usize, thorough: bool) {
         out.push(format!("rta {}({})", k, hex(&r.bytes(1017))));
         out.push(format!("rta {}({})", k, hex(&r.bytes(1))));
     }
+    for t in big_controls(r) {
+        out.push(format!("rt {}", t.render()));
+        out.push(format!("rt {}", gen_control(r, 4, false).render()));
+        out.push(format!("rta {}", gen_avp(r, false).render()));
+    }
     for i in 0..n {
         let big = i % 25 == 0;
         let t = gen_control(r, if i % 50 == 0 { 40 } else { 8 }, big);
@@ -1180,6 +1205,14 @@ fn c04_stream(r: &Rng, out: &mut Out, n: usize) {
 }
 
 fn enc_stream(r: &Rng, out: &mut Out, n: usize, prefixes: bool, oversize: bool) {
+    // large control messages first, ordinary traffic behind each
+    for (i, t) in big_controls(r).iter().enumerate() {
+        let p = if prefixes && i % 2 == 1 { hex(&r.bytes(1 + i)) } else { ".".to_string() };
+        out.push(format!("enc {} {}", p, t.render()));
+        out.push(format!("enc . {}", gen_control(r, 4, false).render()));
+        out.push(format!("enca . {}", gen_avp(r, false).render()));
+        out.push(format!("enc . {}", gen_data(r, true).render()));
+    }
     for i in 0..n {
         let p = if prefixes {
             let pl = *r.pick(&[0usize, 1, 2, 3, 255, 256, 7, 12]);
@@ -1459,6 +1492,32 @@ fn reveal_stream(r: &Rng, out: &mut Out, n: usize) {
         out.push(format!("reveal Hidden(7,{}) {} {}", hex(&r.bytes(vlen - 1)), hex(&s), hex(&rv)));
         out.push(format!("reveal Hidden(7,{}) {} {}", hex(&r.bytes(vlen + 1)), hex(&s), hex(&rv)));
     }
+    // a value that decrypts to a well-formed AVP, made misaligned: 1..15 stray octets behind it, or its last chunk
+    // cut short — refused whatever the first chunk says (short payloads that fit the first chunk included)
+    for pl in (0..=20usize).chain([30, 31, 32, 46, 47]) {
+        for extra in 0..2usize {
+            let s = secret(r);
+            let rv = r.bytes(4);
+            let (attr, payload) = match pl {
+                0 => (39u16, vec![]),
+                2 => (9u16, r.bytes(2)),
+                _ => (7u16, r.bytes(pl.max(1))),
+            };
+            let mut plain = ((6 + payload.len()) as u16).to_be_bytes().to_vec();
+            plain.extend_from_slice(&payload);
+            let pad = (16 - plain.len() % 16) % 16 + 16 * extra;
+            plain.extend(r.bytes(pad));
+            let good = hide_raw(attr, &s, &rv, &plain);
+            for k in [1usize, 2, 7, 8, 15] {
+                let mut v = good.clone();
+                v.extend(r.bytes(k));
+                out.push(format!("reveal Hidden({},{}) {} {}", attr, hex(&v), hex(&s), hex(&rv)));
+                if good.len() > k {
+                    out.push(format!("reveal Hidden({},{}) {} {}", attr, hex(&good[..good.len() - k]), hex(&s), hex(&rv)));
+                }
+            }
+        }
+    }
     // every secret length 0..=130 against values of one, two and three chunks, random and crafted
     for sl in 0..=130usize {
         for chunks in 1..=3usize {
@@ -1548,6 +1607,46 @@ fn c08_stream(r: &Rng, out: &mut Out, n: usize) {
                 out.push(format!("cat {}", recs.join("|")));
             }
         }
+    }
+    // the Length field walked across every boundary (below the header, the header, header + pad, one payload octet,
+    // the whole message, beyond it) for the 16 L/S/O/P combinations, octets behind the message in every case: a
+    // declared length is honoured exactly or the message is refused — never "as far as the buffer goes"
+    for bits in 0..16u16 {
+        let (l, s_, o, p) = (bits & 1 != 0, bits & 2 != 0, bits & 4 != 0, bits & 8 != 0);
+        if !l {
+            continue;
+        }
+        let w: u16 = 0x0220 | if s_ { 0x1000 } else { 0 } | if o { 0x4000 } else { 0 } | if p { 0x8000 } else { 0 };
+        for dl in [1usize, 3] {
+            for offv in [0u16, 1, 2] {
+                let hdr = data_header_len(true, s_, o);
+                let total = hdr + offv as usize + dl;
+                for lv in 0..=total + 3 {
+                    let mut v = w.to_be_bytes().to_vec();
+                    v.extend_from_slice(&(lv as u16).to_be_bytes());
+                    v.extend_from_slice(&[0, 7, 0, 9]);
+                    if s_ {
+                        v.extend_from_slice(&[0, 1, 0, 2]);
+                    }
+                    if o {
+                        v.extend_from_slice(&offv.to_be_bytes());
+                        v.extend(std::iter::repeat(0xee).take(offv as usize));
+                    }
+                    v.extend((0..dl).map(|i| 0xa0 + i as u8));
+                    out.push(format!("sfx {} {} {}", if lv % 2 == 0 { "111" } else { "000" }, hex(&v), hex(&r.bytes(1 + (lv % 7)))));
+                }
+                if !o {
+                    break;
+                }
+            }
+        }
+    }
+    for lv in 0..=24usize {
+        let mut v = vec![0x13, 0x20];
+        v.extend_from_slice(&(lv as u16).to_be_bytes());
+        v.extend_from_slice(&[0, 1, 0, 2, 0, 3, 0, 4]);
+        v.extend_from_slice(&[1, 8, 0, 0, 0, 0, 0, 6]);
+        out.push(format!("sfx 111 {} {}", hex(&v), hex(&r.bytes(1 + lv % 9))));
     }
     // the declared length may cover 1..5 octets that belong to no AVP (fewer than a header): they are inside the
     // message, the reader must stand behind them; every stray count, with and without records, before each kind of suffix
@@ -2571,6 +2670,16 @@ pub fn generate(prop: &str, tier: &str, seed: u64) -> Vec<String> {
                     out.push(format!("fix 111 {}", hex(&img)));
                 }
             }
+            // large accepted messages, each followed by ordinary ones (what a large message leaves behind)
+            for t in big_controls(&r) {
+                if let Some(img) = encode_msg(&t) {
+                    out.push(format!("fix 111 {}", hex(&img)));
+                    out.push(format!("fix 111 {}", hex(&img)));
+                    for _ in 0..3 {
+                        out.push(format!("fix 000 {}", hex(&valid_image(&r, false))));
+                    }
+                }
+            }
             for i in 0..n(25000, 500000) {
                 let b = match i % 5 {
                     0 => valid_image(&r, i % 4 == 0),
@@ -2599,6 +2708,15 @@ pub fn generate(prop: &str, tier: &str, seed: u64) -> Vec<String> {
         "C18" => c18_stream(&r, &mut out, n(15000, 900000)),
         "C19" => {
             c19_stream(&r, &mut out, n(6000, 100000));
+            for t in big_controls(&r) {
+                out.push(format!("enc . {}", t.render()));
+                out.push(format!("rt {}", t.render()));
+                if let Some(img) = encode_msg(&t) {
+                    out.push(format!("dec 111 {}", hex(&img)));
+                }
+                out.push(format!("enc . {}", gen_control(&r, 4, false).render()));
+                out.push(format!("rt {}", gen_control(&r, 4, false).render()));
+            }
             // a print or a memo can sit on any path: a sample of every other property's stream, so that whatever
             // code any stream reaches is also run under the watch on fd 1 / fd 2, reordered, and from 16 threads
             for q in ["C01", "C03", "C04", "C05", "C06", "C07", "C08", "C10", "C11", "C12", "C13", "C14", "C15", "C16", "C17", "C18", "C20"] {
